@@ -204,7 +204,11 @@ func judge(doc *c02.ClassF, rs ruleSet, impl []implPage, seed uint64, out *res.R
 			continue
 		}
 		if pn := paraOf[p.lines[0].Tok]; pn != nil && pn.b.St.Pg != p.name {
-			add("page-name", fmt.Sprintf("page-name-%v", p.name == 0), fmt.Sprintf("page %d starts with %s whose used page is n%d but the page type's name is n%d", i, p.lines[0].Text, pn.b.St.Pg, p.name))
+			key := "page-name"
+			if pn.b.St.Pg == 0 {
+				key = "named-page-left" // the content belongs to the unnamed page but the page type still carries a name
+			}
+			add("page-name", key, fmt.Sprintf("page %d starts with %s whose used page is n%d but the page type's name is n%d", i, p.lines[0].Text, pn.b.St.Pg, p.name))
 		}
 	}
 
